@@ -88,6 +88,7 @@ func (s *Translator) translateWith() error {
 							}
 
 							projectedBinding.Dependencies = binding.Dependencies
+							projectedBinding.PathDirectionReversed = binding.PathDirectionReversed
 							s.scope.Alias(projectionItem.Alias.Value, projectedBinding)
 						} else {
 							projectedBinding = aliasBinding
